@@ -9,6 +9,7 @@ import z3
 from . import theory as T
 from . import folds as FO
 from . import lists as LS
+from . import enumth as EN
 from .values import (SV, Ver, DictVal, SetVal, ListVal, PObj, ItemsView, Assoc, AssignVal, Closure, BoundMethod, ClassRef,
                      BuiltinClass, Builtin, ModuleRef, SuperRef, SeqIter, Unsupported, PathInfeasible, VerifBug,
                      PyExc, is_num, zreal, zint, is_intlike)
@@ -198,10 +199,27 @@ def bi_range(eng, args, kwargs, fr):
 
 
 def bi_enumerate(eng, args, kwargs, fr):
+    if isinstance(args[0], SetVal) and len(args) == 1:
+        return SeqIter("enumset", args[0])
     c = eng.concrete_iter(args[0])
     if c is None:
         raise Unsupported("enumerate over symbolic sequence")
     return tuple(enumerate(c))
+
+
+def bi_itertools_product(eng, args, kwargs, fr):
+    """itertools.product(domain, repeat=N) with domain (0, 1) or (1, -1): every tuple of domain^N exactly once
+    (trusted specification; vf/qvc/enumth.py)"""
+    if len(args) != 1 or set(kwargs) != {"repeat"}:
+        raise Unsupported("itertools.product call shape")
+    dom = args[0]
+    if dom == (1, -1):
+        spin = True
+    elif dom == (0, 1):
+        spin = False
+    else:
+        raise Unsupported("itertools.product over %r" % (dom,))
+    return EN.Product(spin, zint(kwargs["repeat"]))
 
 
 def bi_tuple(eng, args, kwargs, fr):
@@ -306,6 +324,9 @@ def bi_dict(eng, args, kwargs, fr):
     if len(args) == 1 and not kwargs and isinstance(args[0], (DictVal, PObj)):
         ver = eng.store_of(args[0])
         return eng.alloc(DictVal(ver))
+    if len(args) == 1 and not kwargs and isinstance(args[0], SeqIter) and args[0].kind == "enumset":
+        # dict(enumerate(S)): some bijection between range(len(S)) and S (the order of a set is not specified)
+        return eng.alloc(DictVal(FO.base(eng, T.Int, T.Label, "enum")))
     raise Unsupported("dict(...) call shape")
 
 
@@ -733,6 +754,21 @@ def call_method_builtin(eng, recv, name, args, kwargs, fr):
             return None
         if name == "copy":
             return eng.alloc(SetVal(recv.mem, recv.card))
+        if name == "update" and len(args) == 1 and isinstance(args[0], SeqIter) and args[0].kind == "setofkey":
+            # var.update(set(key)): union with the labels of the key; the new cardinality is that of the union
+            eng.facts.enable_sets()
+            if eng.frame_writes is not None:
+                eng.frame_writes.add(id(recv))
+            mem = eng.facts.set_union(recv.mem, eng.facts.memset_of(args[0].data.e))
+            eng.nfresh += 1
+            card = z3.Int("card!%d" % eng.nfresh)
+            eng.facts.add(z3.And(card >= recv.card, card == T.CARD(mem)))
+            recv.mem, recv.card = mem, card
+            return None
+    if isinstance(recv, EN.Groups):
+        return EN.groups_method(eng, recv, name, args)
+    if isinstance(recv, EN.GroupRef):
+        return EN.groupref_method(eng, recv, name, args)
     if isinstance(recv, SeqIter) and recv.kind == "mappedlist" and name == "count":
         # [z[i] for i in k].count(-1)  ->  negcount(k)
         f, seq = recv.data
